@@ -79,7 +79,8 @@ func VerifC11CreateSigning() {
 	maxB := vs.Param("max_bytes")
 
 	secs := vs.I64("block_time_unix")
-	vs.Assume(secs > -(1<<55) && secs < (1<<55))
+	// a block time is a protobuf Timestamp (year 1..9999); the real codec refuses to store anything else
+	vs.Assume(secs >= -62135596800 && secs <= 253402300799)
 	height := vs.I64("block_height")
 	vs.Assume(height >= 0)
 	ctx = ctx.WithBlockTime(time.Unix(secs, 0)).WithBlockHeight(height)
